@@ -64,7 +64,8 @@ func c37ExecPat(i c37In) vh.Out {
 	tags := []string{"pat-accepted"}
 	raws := c37Raw(pp.renderTree, 1001)
 	if n <= 0 || n > 1000 {
-		// the count wrapped (or the limit did not apply): only the first 1001 raw expansions are enumerated, nothing is rendered
+		// an accepted pattern must report 1..1000 variants; if it does not (the count wrapped before commit 1160e46), only the
+		// first 1001 raw expansions are enumerated and nothing is rendered: the monitor fails on such a case
 		obs["enumerated"] = false
 		obs["raw_count_capped_at_1001"] = len(raws)
 		var coqRaws []string
@@ -462,7 +463,7 @@ func c37Gen(r *vh.Rand, tier string, n int) []c37In {
 		n = 600
 	}
 	var ins []c37In
-	// witnesses of the recorded finding and of the count limit
+	// witnesses of the recorded findings and regression cases of the count limit (64 groups: rejected since the count saturates)
 	for _, p := range []string{"/**/*", "/**/**", "/a/**/*", "/a***", "/a//b", "/a/{}*", "/" + strings.Repeat("{a,b}", 64), "/" + strings.Repeat("{a,}", 63) + "{a,b,}",
 		"/{0,1,2,3,4,5,6,7,8,9}{0,1,2,3,4,5,6,7,8,9}{0,1,2,3,4,5,6,7,8,9}", "/{0,1,2,3,4,5,6,7,8,9}{0,1,2,3,4,5,6,7,8,9}{0,1,2,3,4,5,6,7,8,9}{,/}"} {
 		paths := []string{"/", "/a", "/a/", "/a/b", "/ab", "/a/b/"}
